@@ -108,7 +108,11 @@ def nondet_int_of_text(src, lo, hi, L):
         ex = core.cur()
         ok = ex.fresh_bool('int_ok_%s' % src.name)
         val = ex.fresh_int('int_val_%s' % src.name, named=True)
-        key = (lo, hi)
+        for k in getattr(src, 'isdig', {}):
+            if same_int(k[0], lo) and same_int(k[1], hi):
+                key = k
+        if key is None:
+            key = (lo, hi)
         src.ints[key] = (ok, val)
     ok, val = src.ints[key]
     if isinstance(L, int) and L <= 0:
@@ -122,7 +126,63 @@ def nondet_int_of_text(src, lo, hi, L):
         raise ValueError("invalid literal for int() with base 10: ''")
     core.assume(val <= 10 ** L - 1)
     core.assume(val >= -(10 ** (L - 1) - 1))
+    _link_int_isdigit(src, key, L)
     return val
+
+
+def _link_int_isdigit(src, key, L):
+    """consistency between the nondeterministic outcomes of int() and str.isdigit() on the same opaque text"""
+    if key not in src.ints or key not in getattr(src, 'isdig', {}):
+        return
+    ok, val = src.ints[key]
+    dg = src.isdig[key]
+    both = s_and(ok, dg)
+    core.assume(core.s_implies(both, val >= 0))                       # '-5'.isdigit() is False
+    if isinstance(L, int):
+        if L == 1:
+            core.assume(core.s_implies(ok, dg))                        # a single character that int() accepts is a digit
+        else:
+            # accepted by int() but not all digits: a sign / blank / underscore takes one position
+            core.assume(core.s_implies(s_and(ok, s_not(dg), val >= 0), val <= 10 ** (L - 1) - 1))
+
+
+def nondet_isdigit(src, lo, hi, L):
+    """str.isdigit() on opaque text: any outcome (note: it may be True where int() fails, e.g. superscript digits)"""
+    if not hasattr(src, 'isdig'):
+        src.isdig = {}
+    key = None
+    for k in src.isdig:
+        if same_int(k[0], lo) and same_int(k[1], hi):
+            key = k
+            break
+    if key is None:
+        for k in src.ints:
+            if same_int(k[0], lo) and same_int(k[1], hi):
+                key = k
+                break
+        if key is None:
+            key = (lo, hi)
+        src.isdig[key] = core.cur().fresh_bool('isdigit_%s' % src.name)
+    if not isinstance(L, int):
+        L = core.cur().concretize(L, limit=12)
+    if L <= 0:
+        return False
+    _link_int_isdigit(src, key, L)
+    return src.isdig[key]
+
+
+def rope_isdigit(val):
+    conc = rope.try_concrete(val)
+    if conc is not None:
+        return conc.isdigit()
+    ps = rope.nonempty_pieces(val)
+    if len(ps) == 1 and isinstance(ps[0], Opq):
+        p = ps[0]
+        return nondet_isdigit(_derived(p), p.lo, p.hi, p.length())
+    at = rope.whole_atom(val)
+    if isinstance(at, Num):
+        return True
+    raise Unsupported('isdigit on mixed abstract text')
 
 
 def sh_int(val=0, base=10):
